@@ -139,7 +139,7 @@ def r_unlinkfirst(prog, R, rid="R-C19-UNLINKFIRST", fams=("ares_llist", "ares_sl
             continue
         for b, i, c in sites:
             k = "%s_node_destroy: claim before destruct" % fam
-            if mf.passed_call(b, i, fam + "_node_claim"):
+            if mf.passed_call(b, i, fam + "_node_claim", fam + "_node_pop", fam + "_node_unlink", fam + "_node_detach"):
                 r.ok(k, ds.loc(c["ln"]))
             else:
                 r.viol(k, ds.name, ds.loc(c["ln"]), "%s runs the value's destructor while the node is still linked: a destructor that walks or edits the list (destroying a server re-sends its queries and picks the "
